@@ -55,7 +55,10 @@ def literal_forms():
             out.append("$[?@ %s %s]" % (op, num))
         out.append("$[?@.a[0] == %s]" % num)
     for st in ("'a'", '"a"', "'a\\'b'", '"a\\"b"', "'a\"b'", '"a\'b"', "'a\\\\b'", "'a\\/b'", "'\\u0061'", "'\\t'", "'\\u0001'",
-               "'\\ud834\\udd1e'", "'é'", "''", "'a\\nb'"):
+               "'\\ud834\\udd1e'", "'é'", "''", "'a\\nb'",
+               # a backslash right before a quote of the other kind, a lone escaped backslash, DEL raw and escaped
+               '"a\\\\\\"b"', "'a\\\\\"b'", '"\\\\"', "'\\\\'", "'a\\\\'", '"a\\\\\'b"', "'\\u007f'", "'a\x7fb'",
+               '"k\\u007F"'):
         out.append("$[?@ == %s]" % st)
         out.append("$[%s]" % st)
         out.append("$..[%s]" % st)
@@ -75,6 +78,12 @@ def literal_forms():
             "$[?(!(@.a == 1)) == true]", "$[?true == (!(@.a < 2))]", "$[?(!(@.a && @.b)) == false]", "$[?(!(!(@.a == 1))) == true]",
             "$[?(!(@.a == 1)) == (!(@.b == 1))]", "$[?!((!(@.a == 1)) == true)]", "$[?(!@.a) == (@.b == 1)]",
             "$[?(not (@.a == 1)) == true]", "$[?(!(@.a in [1])) == true]",
+            # a comparison on the right of a membership operator (which binds tighter), and the reverse
+            "$[?@.a contains (@.b == 1)]", "$[?@.a in (@.b < 2)]", "$[?@.a == (@.b in [1])]", "$[?(@.a contains @.b) == 1]",
+            "$[?@.a contains (@.b contains 1)]", "$[?1 in (@.a == 1)]",
+            # a string that ends in a backslash, followed by another string
+            '$["a\\\\", "b"]', "$['a\\\\', 'b']", '$[?@.d == "x\\\\" || @.d == "y"]', '$[?@ in ["x\\\\", "z"]]',
+            "$[?match(@, 'a\\\\') && @ != 'b']",
             "^[?@.a]", "^[0]", "^", "^..a", "$[?^[0].a == @.a]", "$[?@ == ^[0][0]]", "$", "", "$..", "$..*", "$.a..", "$[?@..a]"]
     return out
 
